@@ -18,7 +18,6 @@ import vlib, shimlib
 from shimlib import ERRNO
 
 GD_E_UNCLEAN_DB = -27
-K_DFREE = "gzip-target/temp-file-write-or-close-failure/double-free"
 K_OOPREAD = "oop-write/read-through-same-handle-then-close/data-loss"
 OPNAME = {"enc": "alter_encoding", "end": "alter_endianness", "off": "alter_frameoffset", "ren": "rename",
           "mov": "move", "del": "delete", "typ": "alter_raw", "put": "putdata"}
@@ -132,6 +131,8 @@ def main():
         return chk.finish()
 
     base = vlib.scratch("verif-c14-")
+    # the implementation cache may be pruned by a concurrent check: run private copies of the binaries
+    exe = shutil.copy2(exe, os.path.join(base, "harness-bin")); shim = shutil.copy2(shim, os.path.join(base, "shim-bin"))
     plan = [("none", ["enc:gzip:0"], [("a", "a.gz"), ("b", "b.gz")]),
             ("none", ["end:big:0"], [("a", "a"), ("b", "b")]),
             ("none", ["off:3:0"], [("a", "a"), ("b", "b")]),
@@ -143,7 +144,7 @@ def main():
             ("gzip", ["enc:none:0"], [("a.gz", "a"), ("b.gz", "b")]),
             ("none", ["end:big:-1"], [("a", "a"), ("b", "b")])]
     if chk.thorough:
-        plan += [("none", ["enc:bzip2:0"], [("a", "a.bz2"), ("b", "b.bz2")]), ("none", ["enc:lzma:0"], [("a", "a.xz"), ("b", "b.xz")]),
+        plan += [("none", ["enc:bzip2:0"], [("a", "a.bz2"), ("b", "b.bz2")]),
                  ("none", ["off:1:0"], [("a", "a"), ("b", "b")]), ("gzip", ["put:b:5:3:9"], None), ("none", ["ren:b:bb"], None)]
     scs = [Sc(n, e, o, base, f) for n, (e, o, f) in enumerate(plan)]
     errnos = ["ENOSPC", "EIO", "EACCES", "EMFILE"] if chk.thorough else ["ENOSPC", "EIO", "EMFILE"]
@@ -156,7 +157,9 @@ def main():
         r = dict(sc.desc()); r.update(extra); r["kind"] = "impl-vs-spec"
         spec_bad.append((key, desc, r))
 
-    def coarse(opn, callname, symptom):
+    def coarse(opn, callname, symptom, sc=None):
+        if sc is not None and opn == "enc" and "bzip2" in sc.op and callname in ("write", "close") and symptom in ("debris", "crash"):
+            return "bzip2-target/temp-file-write-or-close-failure/%s" % symptom
         if opn == "put":
             return "putdata-oop/io-failure/%s" % symptom
         if opn in ("mov", "typ", "ren") and callname == "close":
@@ -379,7 +382,7 @@ def main():
     def fault_job(a):
         sc, k, en = a
         w = sc.work("f%d_%s" % (k, en))
-        rc, out = shimlib.run_shim(shim, w, [exe, "run", os.path.join(w, "df")] + sc.ops, fail=(k, ERRNO[en]))
+        rc, out = shimlib.run_shim(shim, w, [exe, "run", os.path.join(w, "df")] + sc.ops, fail=(k, ERRNO[en]), timeout=20)
         h = parse_run(out)
         tr = shimlib.tree(os.path.join(w, "df"))
         v = view(w)
@@ -397,13 +400,8 @@ def main():
         debris = sorted(r for r in tr if is_data_tmp(r))
         if rc != 0 or not h["ops"]:
             counts["outcomes"]["crash"] = counts["outcomes"].get("crash", 0) + 1
-            gz = (".gz" in raw or "gzip" in " ".join(sc.ops) or sc.enc == "gzip")
-            if rc in (134, 139) and gz and (is_data_tmp(call.p1) or call.p1.endswith(".gz")) and call.name in ("write", "close"):
-                known_hit(sc, K_DFREE, "%s: %s on a gzip stream fails with %s -> the process aborts (rc %d: %s)" % (
-                    sc.ops, call.name, en, rc, raw.strip().splitlines()[-1][:80] if raw.strip() else ""), extra)
-            else:
-                spec_fail(sc, coarse(opn, call.name, "crash"), "%s with %s at call %d (%s %s): the process died (rc %d): %s" % (
-                    sc.ops, en, k, call.name, call.p1, rc, raw[-200:]), extra)
+            spec_fail(sc, coarse(opn, call.name, "crash", sc), "%s with %s at call %d (%s %s): the process died or hung (rc %d): %s" % (
+                sc.ops, en, k, call.name, call.p1, rc, raw[-200:]), extra)
             continue
         o = h["ops"][0]
         nontriv.add((sc.sid, "fault", call.name, is_data_tmp(call.p1), o["ret"], o["invalid"], v == sc.old_view, v == sc.new_view, bool(debris)))
@@ -425,7 +423,7 @@ def main():
             if o["invalid"]:
                 spec_fail(sc, coarse(opn, call.name, "handle-invalid"), "%s: ordinary error %d but the handle was invalidated" % (sc.ops, o["ret"]), extra)
             if debris:
-                spec_fail(sc, coarse(opn, call.name, "debris"), "%s with %s at call %d (%s %s): returned error %d and left %s" % (
+                spec_fail(sc, coarse(opn, call.name, "debris", sc), "%s with %s at call %d (%s %s): returned error %d and left %s" % (
                     sc.ops, en, k, call.name, call.p1, o["ret"], debris), extra)
             if v != sc.old_view:
                 spec_fail(sc, coarse(opn, call.name, "old-data-not-intact"), "%s with %s at call %d (%s %s): returned error %d but a fresh open no longer sees the old data" % (
@@ -435,7 +433,7 @@ def main():
             continue
         # the operation itself succeeded
         if debris:
-            spec_fail(sc, coarse(opn, call.name, "debris"), "%s with %s at call %d (%s %s): success but %s left" % (sc.ops, en, k, call.name, call.p1, debris), extra)
+            spec_fail(sc, coarse(opn, call.name, "debris", sc), "%s with %s at call %d (%s %s): success but %s left" % (sc.ops, en, k, call.name, call.p1, debris), extra)
         if v not in (sc.new_view,):
             if h["close"] != 0 and sc.w0 is not None and k > sc.w0:
                 known_hit(sc, k_window(sc.op), "%s succeeded, the following gd_close failed (%s at %s): data files are new, metadata old" % (sc.ops, en, call.name), extra)
@@ -444,28 +442,6 @@ def main():
             else:
                 spec_fail(sc, coarse(opn, call.name, "success-but-not-new"), "%s with %s at call %d (%s %s): op ret 0, close %s, but a fresh open does not see the new data" % (
                     sc.ops, en, k, call.name, call.p1, h["close"]), dict(extra, seen=v[:1200]))
-
-    # ---------------------------------------------------------------- deterministic replay of the double close (the plain build only sometimes aborts)
-    sc0 = next((sc for sc in good if sc.ops == ["enc:gzip:0"]), None)
-    if sc0 is not None:
-        kk = next((c.idx for c in sc0.calls if c.name == "write" and is_data_tmp(c.p1)), None)
-        try:
-            impl_a = vlib.build_impl("asan", "-DGD_VERIF_BUFFER_SIZE=64")
-            exe_a = vlib.build_harness(impl_a, os.path.join(vlib.VERIF, "harness/C14/rep.c"))
-        except vlib.BuildError as e:
-            exe_a = None
-            chk.notes.append("asan build failed: " + str(e)[:200])
-        if exe_a and kk is not None:
-            w = sc0.work("asan")
-            rc, out = vlib.sh([shim, "-r", w, "-f", "%d:28" % kk, "--", exe_a, "run", os.path.join(w, "df")] + sc0.ops,
-                              timeout=120, env={"ASAN_OPTIONS": "detect_leaks=0:abort_on_error=0"})
-            chk.cov["evaluations"] += 1
-            if "AddressSanitizer" in out and ("double-free" in out or "heap-use-after-free" in out):
-                m = re.search(r"ERROR: AddressSanitizer: ([^\n]*)", out)
-                known_hit(sc0, K_DFREE, "%s: write on the gzip temporary file fails with ENOSPC -> %s (ASan build)" % (sc0.ops, m.group(1)[:120] if m else "memory error"),
-                          {"fault": {"call_index": kk, "errno": "ENOSPC"}, "asan": out[out.find("ERROR: AddressSanitizer"):][:1500]})
-            elif rc not in (0,) and "AddressSanitizer" in out:
-                spec_fail(sc0, "enc/fail-write/crash", "ASan replay of a failing temp-file write: " + out[-400:], {})
 
     # ---------------------------------------------------------------- known: out-of-place write, read through the same handle, close
     w = os.path.join(base, "oopread"); os.makedirs(w); make_template(os.path.join(w, "p"), "gzip")
@@ -545,7 +521,7 @@ def main():
     chk.cov["rule"] = ("%d scenarios (alter_encoding none<->gzip%s, alter_endianness one fragment / GD_ALL_FRAGMENTS, alter_frameoffset, rename / move / delete with data, "
                        "alter_raw with recode, closing an out-of-place gzip append) on a two-field fragment with a sub-directory fragment; for EVERY system call of "
                        "operation + gd_close: snapshot, SIGKILL, and failure with %s, each followed by a fresh open + full read; plus GD_TRUNC / GD_TRUNCSUB on a tree with "
-                       "symbolic links; distinct = distinct (scenario, kind, call, outcome, views)") % (len(scs), ", bzip2, lzma" if chk.thorough else "", "/".join(errnos))
+                       "symbolic links; distinct = distinct (scenario, kind, call, outcome, views)") % (len(scs), ", bzip2" if chk.thorough else "", "/".join(errnos))
     chk.cov["distribution"] = counts
     for sc in good[:3]:
         chk.sample({"scenario": sc.desc(), "calls": sc.n, "window": [sc.w0, sc.w1], "trace": merge(getattr(sc, "toks", []))})
